@@ -12,13 +12,14 @@ package object
 // types whose Proto()/Zero() panic or delegate to a possibly-nil embedded interface.
 //@ spec fun isVal(o PanObject) bool = o != nil && !isT(o, *DeferObj) && !isT(o, *ReturnObj) && !isT(o, *YieldObj)
 // Data-structure invariant of prototype links (assumed here; established by the constructors' preconditions).
-//@ axiom protoIsVal: forall o PanObject :: {o.Proto()} isVal(o) ==> (o.Proto() == nil || isVal(o.Proto()))
+//@ axiom! protoIsVal: forall o PanObject :: {o.Proto()} isVal(o) ==> (o.Proto() == nil || isVal(o.Proto()))
 //
 // traceInt(o): the *PanInt found by walking o's prototype chain (spec of TraceProtoOfInt).
 //@ spec fun traceInt(o PanObject) *PanInt
 //@ axiom traceInt_def: forall o PanObject :: {traceInt(o)} o != nil ==> traceInt(o) == (o.Proto() == nil ? nil : (isT(o, *PanInt) ? as(o, *PanInt) : (isT(o.Zero(), *PanInt) ? as(o.Zero(), *PanInt) : traceInt(o.Proto()))))
 //
 //@ func object.TraceProtoOfInt(obj) res, ok
+//@   uses     traceInt_def
 //@   requires isVal(obj)
 //@   ensures  res == traceInt(obj)
 //@   ensures  ok <==> res != nil
@@ -29,6 +30,7 @@ package object
 //@ axiom traceNil_def: forall o PanObject :: {traceNil(o)} o != nil ==> traceNil(o) == (o.Proto() == nil ? nil : (o == BuiltInNilObj ? BuiltInNil : (isT(o, *PanNil) ? as(o, *PanNil) : traceNil(o.Proto()))))
 //
 //@ func object.TraceProtoOfNil(obj) res, ok
+//@   uses     traceNil_def
 //@   requires isVal(obj)
 //@   ensures  res == traceNil(obj)
 //@   ensures  ok <==> res != nil
@@ -70,6 +72,7 @@ package object
 //@ spec fun traceBool(o PanObject) *PanBool
 //@ axiom traceBool_def: forall o PanObject :: {traceBool(o)} o != nil ==> traceBool(o) == (o.Proto() == nil ? nil : (isT(o, *PanBool) ? as(o, *PanBool) : traceBool(o.Proto())))
 //@ func object.TraceProtoOfBool(obj) res, ok
+//@   uses     traceBool_def
 //@   requires isVal(obj)
 //@   ensures  res == traceBool(obj)
 //@   ensures  ok <==> res != nil
@@ -79,6 +82,7 @@ package object
 //@ spec fun traceBuiltInFunc(o PanObject) *PanBuiltIn
 //@ axiom traceBuiltInFunc_def: forall o PanObject :: {traceBuiltInFunc(o)} o != nil ==> traceBuiltInFunc(o) == (o.Proto() == nil ? nil : (isT(o, *PanBuiltIn) ? as(o, *PanBuiltIn) : traceBuiltInFunc(o.Proto())))
 //@ func object.TraceProtoOfBuiltInFunc(obj) res, ok
+//@   uses     traceBuiltInFunc_def
 //@   requires isVal(obj)
 //@   ensures  res == traceBuiltInFunc(obj)
 //@   ensures  ok <==> res != nil
@@ -88,6 +92,7 @@ package object
 //@ spec fun traceBuiltInIter(o PanObject) *PanBuiltInIter
 //@ axiom traceBuiltInIter_def: forall o PanObject :: {traceBuiltInIter(o)} o != nil ==> traceBuiltInIter(o) == (o.Proto() == nil ? nil : (isT(o, *PanBuiltInIter) ? as(o, *PanBuiltInIter) : traceBuiltInIter(o.Proto())))
 //@ func object.TraceProtoOfBuiltInIter(obj) res, ok
+//@   uses     traceBuiltInIter_def
 //@   requires isVal(obj)
 //@   ensures  res == traceBuiltInIter(obj)
 //@   ensures  ok <==> res != nil
@@ -97,6 +102,7 @@ package object
 //@ spec fun traceFunc(o PanObject) *PanFunc
 //@ axiom traceFunc_def: forall o PanObject :: {traceFunc(o)} o != nil ==> traceFunc(o) == (o.Proto() == nil ? nil : (isT(o, *PanFunc) ? as(o, *PanFunc) : traceFunc(o.Proto())))
 //@ func object.TraceProtoOfFunc(obj) res, ok
+//@   uses     traceFunc_def
 //@   requires isVal(obj)
 //@   ensures  res == traceFunc(obj)
 //@   ensures  ok <==> res != nil
@@ -106,6 +112,7 @@ package object
 //@ spec fun traceIO(o PanObject) *PanIO
 //@ axiom traceIO_def: forall o PanObject :: {traceIO(o)} o != nil ==> traceIO(o) == (o.Proto() == nil ? nil : (isT(o, *PanIO) ? as(o, *PanIO) : traceIO(o.Proto())))
 //@ func object.TraceProtoOfIO(obj) res, ok
+//@   uses     traceIO_def
 //@   requires isVal(obj)
 //@   ensures  res == traceIO(obj)
 //@   ensures  ok <==> res != nil
@@ -115,6 +122,7 @@ package object
 //@ spec fun traceMatch(o PanObject) *PanMatch
 //@ axiom traceMatch_def: forall o PanObject :: {traceMatch(o)} o != nil ==> traceMatch(o) == (o.Proto() == nil ? nil : (isT(o, *PanMatch) ? as(o, *PanMatch) : traceMatch(o.Proto())))
 //@ func object.TraceProtoOfMatch(obj) res, ok
+//@   uses     traceMatch_def
 //@   requires isVal(obj)
 //@   ensures  res == traceMatch(obj)
 //@   ensures  ok <==> res != nil
@@ -124,6 +132,7 @@ package object
 //@ spec fun traceObj(o PanObject) *PanObj
 //@ axiom traceObj_def: forall o PanObject :: {traceObj(o)} o != nil ==> traceObj(o) == (o.Proto() == nil ? nil : (isT(o, *PanObj) ? as(o, *PanObj) : traceObj(o.Proto())))
 //@ func object.TraceProtoOfObj(obj) res, ok
+//@   uses     traceObj_def
 //@   requires isVal(obj)
 //@   ensures  res == traceObj(obj)
 //@   ensures  ok <==> res != nil
@@ -133,6 +142,7 @@ package object
 //@ spec fun traceErrWrapper(o PanObject) *PanErrWrapper
 //@ axiom traceErrWrapper_def: forall o PanObject :: {traceErrWrapper(o)} o != nil ==> traceErrWrapper(o) == (o.Proto() == nil ? nil : (isT(o, *PanErrWrapper) ? as(o, *PanErrWrapper) : traceErrWrapper(o.Proto())))
 //@ func object.TraceProtoOfErrWrapper(obj) res, ok
+//@   uses     traceErrWrapper_def
 //@   requires isVal(obj)
 //@   ensures  res == traceErrWrapper(obj)
 //@   ensures  ok <==> res != nil
@@ -142,6 +152,7 @@ package object
 //@ spec fun traceArr(o PanObject) *PanArr
 //@ axiom traceArr_def: forall o PanObject :: {traceArr(o)} o != nil ==> traceArr(o) == (o.Proto() == nil ? nil : (isT(o, *PanArr) ? as(o, *PanArr) : (isT(o.Zero(), *PanArr) ? as(o.Zero(), *PanArr) : traceArr(o.Proto()))))
 //@ func object.TraceProtoOfArr(obj) res, ok
+//@   uses     traceArr_def
 //@   requires isVal(obj)
 //@   ensures  res == traceArr(obj)
 //@   ensures  ok <==> res != nil
@@ -151,6 +162,7 @@ package object
 //@ spec fun traceFloat(o PanObject) *PanFloat
 //@ axiom traceFloat_def: forall o PanObject :: {traceFloat(o)} o != nil ==> traceFloat(o) == (o.Proto() == nil ? nil : (o == BuiltInFloatObj ? zeroFloat : (isT(o, *PanFloat) ? as(o, *PanFloat) : traceFloat(o.Proto()))))
 //@ func object.TraceProtoOfFloat(obj) res, ok
+//@   uses     traceFloat_def
 //@   requires isVal(obj)
 //@   ensures  res == traceFloat(obj)
 //@   ensures  ok <==> res != nil
@@ -160,6 +172,7 @@ package object
 //@ spec fun traceMap(o PanObject) *PanMap
 //@ axiom traceMap_def: forall o PanObject :: {traceMap(o)} o != nil ==> traceMap(o) == (o.Proto() == nil ? nil : (o == BuiltInMapObj ? zeroMap : (isT(o, *PanMap) ? as(o, *PanMap) : traceMap(o.Proto()))))
 //@ func object.TraceProtoOfMap(obj) res, ok
+//@   uses     traceMap_def
 //@   requires isVal(obj)
 //@   ensures  res == traceMap(obj)
 //@   ensures  ok <==> res != nil
@@ -169,6 +182,7 @@ package object
 //@ spec fun traceRange(o PanObject) *PanRange
 //@ axiom traceRange_def: forall o PanObject :: {traceRange(o)} o != nil ==> traceRange(o) == (o.Proto() == nil ? nil : (o == BuiltInRangeObj ? zeroRange : (isT(o, *PanRange) ? as(o, *PanRange) : traceRange(o.Proto()))))
 //@ func object.TraceProtoOfRange(obj) res, ok
+//@   uses     traceRange_def
 //@   requires isVal(obj)
 //@   ensures  res == traceRange(obj)
 //@   ensures  ok <==> res != nil
@@ -178,6 +192,7 @@ package object
 //@ spec fun traceStr(o PanObject) *PanStr
 //@ axiom traceStr_def: forall o PanObject :: {traceStr(o)} o != nil ==> traceStr(o) == (o.Proto() == nil ? nil : (o == BuiltInStrObj ? zeroStr : (isT(o, *PanStr) ? as(o, *PanStr) : traceStr(o.Proto()))))
 //@ func object.TraceProtoOfStr(obj) res, ok
+//@   uses     traceStr_def
 //@   requires isVal(obj)
 //@   ensures  res == traceStr(obj)
 //@   ensures  ok <==> res != nil
@@ -211,6 +226,7 @@ package object
 //
 // wfPairs: every PanObj on the chain has a pair table (established by the PanObj constructors).
 //@ func object.FindPropAlongProtos(o, propHash) res, ok
+//@   uses     anc_zero, anc_back, anc_fwd, anc_nil
 //@   requires o == nil || isVal(o)
 //@   requires forall p *PanObj :: {p.Pairs} p != nil ==> p.Pairs != nil
 //@   ensures  ok ==> (exists k int :: k >= 0 && owns(anc(o, k), propHash) && res == propOf(anc(o, k), propHash) && noOwnerBelow(o, propHash, k))
@@ -220,6 +236,7 @@ package object
 //@   loop 1 invariant exists k int :: k >= 0 && obj == anc(o, k) && noOwnerBelow(o, propHash, k)
 //
 //@ func object.FindPropOwner(o, propHash) res, ok
+//@   uses     anc_zero, anc_back, anc_fwd, anc_nil
 //@   requires o == nil || isVal(o)
 //@   requires forall p *PanObj :: {p.Pairs} p != nil ==> p.Pairs != nil
 //@   ensures  ok ==> (exists k int :: k >= 0 && owns(anc(o, k), propHash) && res == anc(o, k) && noOwnerBelow(o, propHash, k))
@@ -354,3 +371,31 @@ package object
 //
 // a function object wraps the evaluator's code wrapper (never another PanFunc)
 //@ invariant object.PanFunc: isT(self.FuncWrapper, *evaluator.FuncWrapperImpl)
+//
+// ---- C03/C14/C19: environments --------------------------------------------------------------------
+// iterStore(s): s is the variable store of an iterator's own environment. Stores are referenced from exactly
+// one Env, and an iterator's Env only from its PanFunc, so this is a property of the store fixed when it is
+// created (assumed; not checked at allocation).
+//@ invariant assumed object.PanFunc: self.Env != nil && (iterStore(self.Env.Store) <==> self.FuncKind == IterFunc)
+//@ props C03 C14 C19
+//@ func object.NewEnv() res
+//@   ensures res != nil && fresh(res) && res.Store != nil && fresh(res.Store) && res.outer == nil && len(res.Store) == 0
+//@   assigns nothing
+//@ func object.NewEnclosedEnv(e) res
+//@   ensures res != nil && fresh(res) && res.Store != nil && fresh(res.Store) && res.outer == e && len(res.Store) == 0
+//@   assigns nothing
+// the copy has its own store, the same enclosing scope, and no binding that the original does not have
+//@ func object.NewCopiedEnv(env) res
+//@   requires env != nil
+//@   ensures  res != nil && fresh(res) && res.Store != nil && fresh(res.Store) && res.outer == env.outer
+//@   ensures  forall h uint64 :: {res.Store[h]} has(res.Store, h) ==> has(env.Store, h) && res.Store[h] == env.Store[h]
+//@   assigns  nothing
+//@   loop 1 invariant newStore != nil && fresh(newStore) && (forall h uint64 :: {newStore[h]} has(newStore, h) ==> has(env.Store, h) && newStore[h] == env.Store[h])
+// lookup: innermost scope first, then outwards
+//@ traced: object.(*Env).Get
+//@ func object.(*Env).Get(e, h) res, ok
+//@   requires e != nil && e.Store != nil
+//@   ensures  has(e.Store, h) ==> ok && res == e.Store[h] && ncalls == 0
+//@   ensures  !has(e.Store, h) && e.outer == nil ==> !ok && ncalls == 0
+//@   ensures  !has(e.Store, h) && e.outer != nil ==> ncalls == 1 && called(0, "object.(*Env).Get") && arg1(0) == e.outer && arg2(0) == h && res == result(0)
+//@   assigns  nothing
